@@ -5,7 +5,7 @@
 # against the patched worktree via VERIF_REPO, and restores the worktree.  Never touches /repo.
 set -u
 prop="$1"; mk="$2"; shift 2
-wt="/tmp/wt-$prop"; src="/tmp/seed-out/$prop/$mk"
+wt="/tmp/wt-$prop"; src="${SEEDOUT:-/tmp/seed-out}/$prop/$mk"
 [ -f "$src/patch.diff" ] || { echo "no patch at $src"; exit 3; }
 git -C "$wt" checkout -q -- . && git -C "$wt" clean -fdq
 # seeds are judged on top of the current /repo HEAD (which carries the fix: commits)
